@@ -7,6 +7,7 @@ import (
 	"github.com/fatih/color"
 	"grog/internal/config"
 	"grog/internal/console"
+	"grog/internal/verifhook"
 	"os"
 	"path/filepath"
 	"strconv"
@@ -43,19 +44,27 @@ func (wl *WorkspaceLocker) Lock(ctx context.Context) error {
 
 	for {
 		logger.Debugf("Attempting to acquire workspace lock at %s", wl.lockFilePath)
+		verifhook.Gate("lock.open")
 		file, err := os.OpenFile(wl.lockFilePath, os.O_RDWR|os.O_CREATE, 0644)
 		if err != nil {
 			return err
 		}
 
+		verifhook.Emit("lock.opened", "ino", verifhook.Ino(file))
+		verifhook.Gate("lock.flock")
 		err = syscall.Flock(int(file.Fd()), syscall.LOCK_EX|syscall.LOCK_NB)
+		verifhook.Emit("lock.flocked", "ok", err == nil)
 		if err == nil {
 			// We hold the lock on the file we opened. Make sure that it is still the file at the lock path:
 			// the previous holder may have removed it (Unlock) between our open and our flock.
+			verifhook.Gate("lock.verify")
 			if !isSameFile(file, wl.lockFilePath) {
+				verifhook.Emit("lock.verified", "same", false)
 				file.Close()
 				continue
 			}
+			verifhook.Emit("lock.verified", "same", true)
+			verifhook.Gate("lock.write")
 			if err := file.Truncate(0); err == nil {
 				_, err = file.WriteAt(pidStr, 0)
 			}
@@ -65,6 +74,7 @@ func (wl *WorkspaceLocker) Lock(ctx context.Context) error {
 				return err
 			}
 			wl.file = file
+			verifhook.Emit("lock.held")
 			return nil
 		}
 		if !errors.Is(err, syscall.EWOULDBLOCK) {
@@ -73,6 +83,7 @@ func (wl *WorkspaceLocker) Lock(ctx context.Context) error {
 		}
 
 		// Another process (or locker) holds the lock: its PID is in the file
+		verifhook.Gate("lock.read")
 		data, _ := os.ReadFile(wl.lockFilePath)
 		file.Close()
 		otherPid, _ := strconv.Atoi(strings.TrimSpace(string(data)))
@@ -86,6 +97,10 @@ func (wl *WorkspaceLocker) Lock(ctx context.Context) error {
 		}
 		fmt.Print(".")
 
+		verifhook.Gate("lock.sleep")
+		if verifhook.Enabled && verifhook.Controlled() {
+			continue
+		}
 		select {
 		case <-ctx.Done():
 			return ctx.Err()
@@ -113,8 +128,12 @@ func (wl *WorkspaceLocker) Unlock() error {
 		return errors.New("workspace lock is not held")
 	}
 	// Remove the file while still holding the lock, then release it by closing the file
+	verifhook.Gate("unlock.remove")
 	removeErr := os.Remove(wl.lockFilePath)
+	verifhook.Emit("unlock.removed", "ok", removeErr == nil)
+	verifhook.Gate("unlock.close")
 	closeErr := wl.file.Close()
+	verifhook.Emit("unlock.closed")
 	wl.file = nil
 	if removeErr != nil {
 		return removeErr
